@@ -1,11 +1,15 @@
 /-
 C10 driver: one JSON request per line on stdin, one JSON answer per line on stdout.
 Ops (see tools/props/c10.py):
-  parse, decor, term, coll, access, spec_access, derefvar, mdreg, mf, enum, spec_enum, spec_enum_world, cols, spec_frag, roundtrip
+  parse, decor, term, coll, access, spec_access, derefvar, mdreg, mf, enum, spec_enum, spec_enum_world, cols, spec_frag, roundtrip,
+  spec_access_shape (counting predicate `shapeOk` on an observed access text), enum_obj (value_as_cpp through the
+  namespace OBJECT of any nesting depth), mdlocal (per-declaration entries: alone / inside the list, model side),
+  spec_local (`localOk` on two observed registry entries)
 Run: lake env lean --run FaxVerif/C10/Driver.lean
 -/
 import Lean.Data.Json
 import FaxVerif.C10.Spec
+import FaxVerif.C10.ExtModel
 open Lean FaxVerif.C10
 
 def S (l : List Char) : String := String.ofList l
@@ -115,20 +119,47 @@ def getStep (j : Json) : Except String Step := do
   else if k == "each" then pure .each
   else throw s!"unknown step {k}"
 
-def getFin (st : NsState) (j : Json) : Except String (Except Err ColFin) := do
+def getAOp (s : String) : Except String AOp :=
+  if s == "+" then pure .add else if s == "-" then pure .sub else if s == "*" then pure .mul else throw s!"unknown arithmetic operator {s}"
+
+def getCOp (s : String) : Except String COp :=
+  if s == "==" then pure .eq else if s == "!=" then pure .ne else if s == "<" then pure .lt else if s == "<=" then pure .le
+  else if s == ">" then pure .gt else if s == ">=" then pure .ge else throw s!"unknown comparison operator {s}"
+
+def getFin (st : NsState) (j : Json) : Except String (Except Err Tail) := do
   match j.getObjVal? "fin" with
   | .error _ => pure (.ok .plain)
   | .ok f =>
     let k ← (← f.getObjVal? "k").getStr?
-    if k == "plain" then pure (.ok .plain)
-    else if k == "addOne" then pure (.ok .addOne)
-    else if k == "eqConst" then
+    let const (op : COp) : Except String (Except Err Tail) := do
       let path ← strList (← f.getObjVal? "path")
       match resolvePath st (path.map String.toList) with
-      | .ok (.value c _) => pure (.ok (.eqConst (S c)))
+      | .ok (.value c _) => pure (.ok (.cmpConst op (S c)))
       | .ok _ => pure (.error .noMember)
       | .error e => pure (.error e)
+    if k == "plain" then pure (.ok .plain)
+    else if k == "addOne" then pure (.ok (Tail.ofFin .addOne))
+    else if k == "eqConst" then const .eq
+    else if k == "arith" then
+      pure (.ok (.arith (← getAOp (← (← f.getObjVal? "op").getStr?)) (← (← f.getObjVal? "n").getNat?)))
+    else if k == "div" then pure (.ok (.div (← (← f.getObjVal? "n").getNat?)))
+    else if k == "cmp" then
+      pure (.ok (.cmp (← getCOp (← (← f.getObjVal? "op").getStr?)) (← (← f.getObjVal? "n").getNat?)))
+    else if k == "cmpConst" then const (← getCOp (← (← f.getObjVal? "op").getStr?))
     else throw s!"unknown fin {k}"
+
+def getInfo (j : Json) : Except String Info := do
+  let r ← j.getObjVal? "rty"
+  let kind ← (← r.getObjVal? "kind").getStr?
+  let t ← getTerm (← r.getObjVal? "t")
+  let deref ← (← j.getObjVal? "deref").getNat?
+  if kind == "coll" then pure ⟨.coll t (← getTerm (← r.getObjVal? "elem")), deref⟩ else pure ⟨.value t, deref⟩
+
+def optInfo (j : Json) (k : String) : Except String (Option Info) :=
+  match j.getObjVal? k with
+  | .ok .null => pure none
+  | .ok v => do pure (some (← getInfo v))
+  | .error _ => pure none
 
 def loopsJ (l : List (String × CExpr)) : Json :=
   Json.arr (l.map fun (v, c) => Json.arr #[Json.str v, Json.str (render c)]).toArray
@@ -266,8 +297,8 @@ def handleOp (op : String) (j : Json) : Except String Json := do
         | .error e => pure (Json.mkObj [("err", errS e), ("must_accept", false)])
         | .ok fin =>
           -- `must_accept`: the property (with its own constants, not the generated ones) obliges the translator
-          let must := specAccepts reg rootElem steps fin
-          match runCol reg rootElem steps fin with
+          let must := specAcceptsT reg rootElem steps fin
+          match runColT reg rootElem steps fin with
           | .ok o => pure (Json.mkObj [("ok", colOutJ o), ("must_accept", must)])
           | .error e => pure (Json.mkObj [("err", errS e), ("must_accept", must)])
       pure (Json.mkObj [("cols", Json.arr outs.toArray)])
@@ -284,6 +315,31 @@ def handleOp (op : String) (j : Json) : Except String Json := do
       match fragOk D frag with
       | .ok () => pure (Json.mkObj [("holds", true), ("why", ""), ("consistent", D.consistent)])
       | .error w => pure (Json.mkObj [("holds", false), ("why", w), ("consistent", D.consistent)])
+  else if op == "spec_access_shape" then
+    let x ← (← j.getObjVal? "x").getStr?
+    let n ← (← j.getObjVal? "n").getNat?
+    let obs ← (← j.getObjVal? "obs").getStr?
+    pure (Json.mkObj [("holds", shapeOk x.toList n obs.toList), ("chars", jS (accessChars x.toList n))])
+  else if op == "enum_obj" then
+    let path := (← strList (← j.getObjVal? "ns")).map String.toList
+    let v := (← (← j.getObjVal? "v").getStr?).toList
+    let name := (← (← j.getObjVal? "name").getStr?).toList
+    match nsObjOf path with
+    | none => pure (Json.mkObj [("err", "empty")])
+    | some o => pure (Json.mkObj [("depth", o.depth), ("cpp", jS (valueAsCppObj o v)), ("full", jS (enumFullNameObj o name)),
+        ("spec", jS (qualified path v))])
+  else if op == "mdlocal" then
+    let mds ← getMds j
+    let inList := processFold mds []
+    let items := mds.map fun md =>
+      let alone : Json := match mdInfo md with | .ok i => infoJ i | .error e => Json.mkObj [("err", errS e)]
+      let here : Json := match inList with
+        | .ok reg => (match reg.find md.typeString md.method with | some i => infoJ i | none => Json.null)
+        | .error e => Json.mkObj [("err", errS e)]
+      Json.mkObj [("alone", alone), ("inlist", here)]
+    pure (Json.mkObj [("items", Json.arr items.toArray)])
+  else if op == "spec_local" then
+    pure (Json.mkObj [("holds", localOk (← optInfo j "alone") (← optInfo j "inlist"))])
   else if op == "roundtrip" then
     let s ← (← j.getObjVal? "s").getStr?
     pure (Json.mkObj [("text", match parseExpr s with | some e => Json.str (render e) | none => Json.null)])
